@@ -19,6 +19,9 @@ import Rsa.Lemmas.C07Rank
 import Rsa.Lemmas.C07Loo
 import Rsa.Lemmas.C07White
 import Rsa.Lemmas.C07Struct
+import Rsa.Lemmas.C07Group
+import Rsa.Lemmas.C07CvNan
+import Rsa.Lemmas.C07Fast
 import Mathlib.Tactic.IntervalCases
 
 set_option linter.unusedSectionVars false
@@ -404,7 +407,11 @@ theorem ceiling_ignores_common_nan (m : Method) (o : Obj) (mask : List Bool)
   have hhead : maskOf (((d :: ds).map (expand mask)).headD []) = mask := by
     simpa using hmask d (List.mem_cons_self ..)
   rw [hhead]
+  have htake : List.take (Rsa.Gen.C07.bootLoopLen (looFolds o).length) (looFolds o) = looFolds o := by
+    unfold Rsa.Gen.C07.bootLoopLen; exact List.take_length
+  simp only [htake]
   congr 1
+  change bootNoiseCeilingG (poolO m) (simO m (vFor m o.nC mask)) ((d :: ds).map (expand mask)) o = _
   apply bootG_congr (fun r r' => r = expand mask r' ∧ r'.length = mask.count true)
     (fun a a' => present a = a')
   · intro l l' hl
@@ -572,13 +579,302 @@ theorem ceiling_affine_invariant_whitened {V : List (List ℝ)} {p : ℕ} (hV : 
     · have : center ([] : List ℝ) = [] := rfl
       rw [this, wsim_nil_left, wsim_nil_left]
 
-/-! ## what is not proved (kept as a statement) -/
+/-! ## 8. (round 3) `rdm_descriptor` groups of any size: what the upper bound is then -/
 
-/-- the NaN bridge for `cv_noise_ceiling` (pattern subsets of masked vectors): correspondence only -/
-def cv_ignores_common_nan_full : Prop :=
-  ∀ (m : Method) (o : Obj) (mask : List Bool) (denses : List (List ℝ)) (folds : List CvFold),
-    denses ≠ [] → (∀ d ∈ denses, d.length = mask.count true) →
-    ∃ lo up, cvNoiseCeilingO m o (denses.map (expand mask)) folds = some (lo, up)
+/-- **any grouping with ≥ 2 groups**: the score of a candidate, and the coded upper bound (score of
+    the equal-weight pool), are *weighted* sums of similarities: RDM `j` weighs
+    `1 / (#groups · size of its group)` (mean within the left-out group, then mean over groups) -/
+theorem grouped_score_is_weighted_sum (pool : List (List ℝ) → List ℝ) (sim : List ℝ → List ℝ → ℝ)
+    (rows : List (List ℝ)) (o : Obj) (hn : o.nR = rows.length) (h2 : 1 < nGroups o) :
+    (∀ c, candidateScore sim rows o c =
+      ((List.range rows.length).map fun j => groupWeight o j * sim c (rows.getD j [])).sum) ∧
+    (bootNoiseCeilingG pool sim rows o).2 =
+      ((List.range rows.length).map fun j => groupWeight o j * sim (pool rows) (rows.getD j [])).sum :=
+  ⟨fun c => candidateScore_grouped sim rows o c hn h2, upper_grouped pool sim rows o hn h2⟩
+
+theorem wsum_const (w : ℕ → ℝ) (w0 : ℝ) (rows : List (List ℝ)) (g : List ℝ → ℝ)
+    (hw : ∀ j, j < rows.length → w j = w0) :
+    ((List.range rows.length).map fun j => w j * g (rows.getD j [])).sum = w0 * (rows.map g).sum := by
+  have : (List.range rows.length).map (fun j => w j * g (rows.getD j []))
+      = ((List.range rows.length).map (fun j => rows.getD j [])).map (fun r => w0 * g r) := by
+    rw [List.map_map]
+    apply List.map_congr_left
+    intro j hj
+    simp only [Function.comp_def]
+    rw [hw j (List.mem_range.mp hj)]
+  rw [this, range_map_getD, List.sum_map_mul_left]
+
+/-- **balanced groups** (all groups of one size `k ≥ 1`, at least two groups — "every RDM its own
+    group" is `k = 1`): the coded upper bound is still unbeatable, for cosine, Pearson and rho-a -/
+theorem upper_unbeatable_balanced_groups (V : List (List ℝ)) (p k : ℕ) (rows : List (List ℝ)) (o : Obj)
+    (hn : o.nR = rows.length) (h2 : 1 < nGroups o) (hk : ∀ j, j < o.nR → groupSize o j = k)
+    (hlen : ∀ r ∈ rows, r.length = p) (c : List ℝ) :
+    candidateScore (simV .cosine V) rows o c
+        ≤ (bootNoiseCeilingG (poolD .cosine) (simV .cosine V) rows o).2 ∧
+    candidateScore (simV .corr V) rows o c
+        ≤ (bootNoiseCeilingG (poolD .corr) (simV .corr V) rows o).2 ∧
+    (c.length = p → candidateScore (simV .rhoA V) rows o c
+        ≤ (bootNoiseCeilingG (poolD .rhoA) (simV .rhoA V) rows o).2) := by
+  have hne : rows ≠ [] := by
+    rintro rfl
+    have : nGroups o = 0 := by simp [nGroups, hn, descList, uniq]
+    omega
+  set w0 : ℝ := 1 / ((nGroups o : ℝ) * (k : ℝ)) with hw0
+  have hw : ∀ j, j < rows.length → (groupWeight o j : ℝ) = w0 := by
+    intro j hj
+    unfold groupWeight
+    rw [hk j (hn ▸ hj)]
+  have hw0' : 0 ≤ w0 := by rw [hw0]; positivity
+  refine ⟨?_, ?_, fun hc => ?_⟩
+  · rw [upper_grouped _ _ rows o hn h2, candidateScore_grouped _ rows o c hn h2,
+      wsum_const _ w0 rows _ hw, wsum_const _ w0 rows _ hw]
+    exact mul_le_mul_of_nonneg_left (sum_cosine_le_pool c p rows hne hlen) hw0'
+  · rw [upper_grouped _ _ rows o hn h2, candidateScore_grouped _ rows o c hn h2,
+      wsum_const _ w0 rows _ hw, wsum_const _ w0 rows _ hw]
+    exact mul_le_mul_of_nonneg_left (sum_corr_le_pool c p rows hne hlen) hw0'
+  · rw [upper_grouped _ _ rows o hn h2, candidateScore_grouped _ rows o c hn h2,
+      wsum_const _ w0 rows _ hw, wsum_const _ w0 rows _ hw]
+    exact mul_le_mul_of_nonneg_left (sum_rhoA_le_pool c p rows hne hlen hc) hw0'
+
+/-- **groups of unequal size**: the highest score any single RDM can achieve under the grouped loop is
+    attained by the *weighted* pool `Σ_j w_j · r_j / rms(r_j)` (cosine; mean-removed for Pearson),
+    `w_j = 1 / (#groups · size of the group of RDM j)`: every candidate — in particular the coded
+    equal-weight pool, i.e. the reported upper bound — scores at most as high.  (With unequal groups
+    the reported upper bound can be beaten: see the example below and the oracle claim
+    `grouped-weighted-sup`; this is why the property says "every data RDM its own group".) -/
+theorem grouped_sup_is_weighted_pool (V : List (List ℝ)) (p : ℕ) (rows : List (List ℝ)) (o : Obj)
+    (hn : o.nR = rows.length) (h2 : 1 < nGroups o) (hlen : ∀ r ∈ rows, r.length = p) :
+    (∀ c, candidateScore (simV .cosine V) rows o c
+        ≤ candidateScore (simV .cosine V) rows o (poolWeighted cosF (groupWeight o) rows)) ∧
+    (bootNoiseCeilingG (poolD .cosine) (simV .cosine V) rows o).2
+        ≤ candidateScore (simV .cosine V) rows o (poolWeighted cosF (groupWeight o) rows) ∧
+    (∀ c, candidateScore (simV .corr V) rows o c
+        ≤ candidateScore (simV .corr V) rows o (poolWeighted corrF (groupWeight o) rows)) ∧
+    (bootNoiseCeilingG (poolD .corr) (simV .corr V) rows o).2
+        ≤ candidateScore (simV .corr V) rows o (poolWeighted corrF (groupWeight o) rows) := by
+  have hne : rows ≠ [] := by
+    rintro rfl
+    have : nGroups o = 0 := by simp [nGroups, hn, descList, uniq]
+    omega
+  have h1 : ∀ c, candidateScore (simV .cosine V) rows o c
+      ≤ candidateScore (simV .cosine V) rows o (poolWeighted cosF (groupWeight o) rows) := by
+    intro c
+    rw [candidateScore_grouped _ rows o c hn h2, candidateScore_grouped _ rows o _ hn h2]
+    exact wsum_cosine_le_pool c (groupWeight o) p rows hne hlen
+  have h3 : ∀ c, candidateScore (simV .corr V) rows o c
+      ≤ candidateScore (simV .corr V) rows o (poolWeighted corrF (groupWeight o) rows) := by
+    intro c
+    rw [candidateScore_grouped _ rows o c hn h2, candidateScore_grouped _ rows o _ hn h2]
+    exact wsum_corr_le_pool c (groupWeight o) p rows hne hlen
+  refine ⟨h1, ?_, h3, ?_⟩
+  · rw [upper_attained]; exact h1 _
+  · rw [upper_attained]; exact h3 _
+
+/-! ## 9. (round 3) entries missing from all RDMs: the cross-validated ceiling -/
+
+/-- **the NaN bridge for `cv_noise_ceiling`** (was `cv_ignores_common_nan_full`): on a stack whose RDMs
+    all miss exactly the entries not flagged in `mask`, `cv_noise_ceiling` as coded (NaN-aware
+    normalisers, `_nan_mean`, `subset_pattern` / `subsample_pattern` on vectors with NaNs, `compare`
+    dropping the NaNs) is — fold by fold, for every method and every fold structure, including which
+    inputs are rejected — the function that pools the *non-missing entries only* (`poolDense`: no NaN
+    enters any mean, standard deviation, rank or minimum) and compares the non-missing entries -/
+theorem cv_ignores_common_nan (m : Method) (o : Obj) (mask : List Bool) (denses : List (List ℝ))
+    (folds : List CvFold) (hlen : ∀ d ∈ denses, d.length = mask.count true) :
+    cvNoiseCeilingO m o (denses.map (expand mask)) folds =
+      if cvShapesOk (poolDense m) o (denses.map (expand mask)) folds then
+        some (cvNoiseCeilingG (poolDense m)
+          (fun k td a b => simV m (vFor m k (maskOf (td.headD []))) (present a) (present b))
+          o (denses.map (expand mask)) folds)
+      else none := by
+  have hp := fun f => cvPred_eq_dense m o mask denses hlen f
+  have hshape : cvShapesOk (poolO m) o (denses.map (expand mask)) folds
+      = cvShapesOk (poolDense m) o (denses.map (expand mask)) folds := by
+    unfold cvShapesOk
+    congr 1
+    funext f
+    rw [(hp f).1, (hp f).2]
+  have hterms : ∀ sim : ℕ → List (List (Option ℝ)) → List (Option ℝ) → List (Option ℝ) → ℝ,
+      cvNoiseCeilingG (poolO m) sim o (denses.map (expand mask)) folds
+        = cvNoiseCeilingG (poolDense m) sim o (denses.map (expand mask)) folds := by
+    intro sim
+    unfold cvNoiseCeilingG cvTerms
+    congr 2
+    funext f
+    simp only [(hp f).1, (hp f).2]
+  have htake : List.take (Rsa.Gen.C07.cvLoopLen folds.length) folds = folds := by
+    unfold Rsa.Gen.C07.cvLoopLen; exact List.take_length
+  unfold cvNoiseCeilingO
+  simp only [htake]
+  rw [commonMask_expand mask denses hlen, hshape, hterms]
+  simp only [Bool.true_and]
+  rfl
+
+/-! ## 10. (round 3) the code path `compare` takes for the whitened measures -/
+
+theorem forall₂_eq_left {l l' : List (List ℝ)} {q : List ℝ → Prop}
+    (h : List.Forall₂ (fun r r' => r = r' ∧ q r) l l') : l = l' ∧ ∀ r ∈ l, q r := by
+  induction h with
+  | nil => exact ⟨rfl, fun r hr => by simp at hr⟩
+  | cons hab _ ih =>
+    refine ⟨by rw [hab.1, ih.1], fun r hr => ?_⟩
+    rcases List.mem_cons.mp hr with rfl | hr
+    · exact hab.2
+    · exact ih.2 r hr
+
+/-- **`compare(·, ·, 'cosine_cov' | 'corr_cov')` as coded** (`sigma_k=None`: linear-CKA shortcut
+    `_cov_weighting` + `_cosine`, grand mean through C03's regenerated leaf) **is the cosine of the
+    whitened form `xᵀV⁻¹y`**, `V = getV n none`, for every `n ≥ 1`, complete RDM vectors and *any*
+    correct solver (C03's `dot_solution_eq_fast`) -/
+theorem coded_shortcut_eq_V_form (n : ℕ) (hn : 0 < n) {sol : List ℝ → List ℝ}
+    (hs : IsSolver (getV n (SigmaK.none : SigmaK ℝ)) (triLen n) sol) (x y : List ℝ)
+    (hx : x.length = triLen n) (hy : y.length = triLen n) :
+    simFast n .cosineCov x y = cosB (wform sol) x y ∧
+    simFast n .corrCov x y = cosB (wform sol) (center x) (center y) :=
+  ⟨fastCoded_eq_cosB n hn hs x y hx hy,
+   fastCoded_eq_cosB n hn hs (center x) (center y) (by rw [center_length]; exact hx)
+     (by rw [center_length]; exact hy)⟩
+
+/-- both noise-ceiling bounds computed with the coded shortcut = computed with the `V⁻¹` form (any
+    method, any grouping, complete RDMs of `n ≥ 1` conditions) -/
+theorem ceiling_coded_shortcut_eq_V_form (n : ℕ) (hn : 0 < n)
+    (hsol : IsSolver (getV n (SigmaK.none : SigmaK ℝ)) (triLen n) (solve (getV n SigmaK.none)))
+    (m : Method) (rows : List (List ℝ)) (o : Obj) (hlen : ∀ r ∈ rows, r.length = triLen n) :
+    bootNoiseCeilingG (poolD m) (simFast n m) rows o
+      = bootNoiseCeilingG (poolD m) (simV m (getV n SigmaK.none)) rows o := by
+  have hpool : ∀ l l' : List (List ℝ),
+      List.Forall₂ (fun r r' => r = r' ∧ r.length = triLen n) l l' →
+      poolD m l = poolD m l' ∧ ((poolD m l).length = triLen n ∨ poolD m l = []) := by
+    intro l l' hl
+    obtain ⟨rfl, hq⟩ := forall₂_eq_left hl
+    refine ⟨rfl, ?_⟩
+    by_cases hz : l = []
+    · right; subst hz; cases m <;> rfl
+    · left; exact poolD_length m _ l hz hq
+  have hrows : List.Forall₂ (fun r r' => r = r' ∧ r.length = triLen n) rows rows :=
+    List.forall₂_same.mpr (fun x hx => ⟨rfl, hlen x hx⟩)
+  cases m with
+  | cosine => rfl
+  | corr => rfl
+  | rhoA => rfl
+  | spearman => rfl
+  | cosineCov =>
+    apply bootG_congr (fun r r' => r = r' ∧ r.length = triLen n)
+      (fun a a' => a = a' ∧ (a.length = triLen n ∨ a = [])) _ _ _ _ hpool _ rows rows hrows
+    rintro a a' b b' ⟨rfl, ha⟩ ⟨rfl, hb⟩
+    show whitenedCosFastCoded n a b = wsim _ a b
+    rcases ha with ha | rfl
+    · rw [wsim_eq_cosB, fastCoded_eq_cosB n hn hsol a b ha hb]
+    · rw [fastCoded_nil_left, wsim_nil_left]
+  | corrCov =>
+    apply bootG_congr (fun r r' => r = r' ∧ r.length = triLen n)
+      (fun a a' => a = a' ∧ (a.length = triLen n ∨ a = [])) _ _ _ _ hpool _ rows rows hrows
+    rintro a a' b b' ⟨rfl, ha⟩ ⟨rfl, hb⟩
+    show whitenedCosFastCoded n (center a) (center b) = wsim _ (center a) (center b)
+    rcases ha with ha | rfl
+    · rw [wsim_eq_cosB, fastCoded_eq_cosB n hn hsol _ _ (by rw [center_length]; exact ha)
+        (by rw [center_length]; exact hb)]
+    · have : center ([] : List ℝ) = [] := rfl
+      rw [this, fastCoded_nil_left, wsim_nil_left]
+
+/-- **lower ≤ upper for `cosine_cov` and `corr_cov` on the coded fast path**, every number of conditions
+    `n ≥ 1`, every RDM its own group: `V = getV n none` is symmetric positive definite for every `n`
+    (C03's `symPosDef_getV_none`), so the only remaining contract is the linear solve -/
+theorem lower_le_upper_whitened_coded (n : ℕ) (hn : 0 < n)
+    (hsol : IsSolver (getV n (SigmaK.none : SigmaK ℝ)) (triLen n) (solve (getV n SigmaK.none)))
+    (rows : List (List ℝ)) (o : Obj) (hs : Singleton o rows.length)
+    (hlen : ∀ r ∈ rows, r.length = triLen n) :
+    (bootNoiseCeilingG (poolD .cosineCov) (simFast n .cosineCov) rows o).1
+        ≤ (bootNoiseCeilingG (poolD .cosineCov) (simFast n .cosineCov) rows o).2 ∧
+    (bootNoiseCeilingG (poolD .corrCov) (simFast n .corrCov) rows o).1
+        ≤ (bootNoiseCeilingG (poolD .corrCov) (simFast n .corrCov) rows o).2 := by
+  rw [ceiling_coded_shortcut_eq_V_form n hn hsol .cosineCov rows o hlen,
+    ceiling_coded_shortcut_eq_V_form n hn hsol .corrCov rows o hlen]
+  exact lower_le_upper_whitened (symPosDef_getV_none n) hsol rows o hs hlen
+
+/-- rescaling (cosine_cov) / affine (corr_cov) invariance of both bounds on the coded fast path -/
+theorem ceiling_invariant_whitened_coded (n : ℕ) (hn : 0 < n)
+    (hsol : IsSolver (getV n (SigmaK.none : SigmaK ℝ)) (triLen n) (solve (getV n SigmaK.none)))
+    (rows rows' : List (List ℝ)) (o : Obj) :
+    (List.Forall₂ (fun r r' => r.length = triLen n ∧ ∃ k : ℝ, 0 < k ∧ r' = r.map (· * k)) rows rows' →
+      bootNoiseCeilingG (poolD .cosineCov) (simFast n .cosineCov) rows o
+        = bootNoiseCeilingG (poolD .cosineCov) (simFast n .cosineCov) rows' o) ∧
+    (List.Forall₂ (fun r r' => r.length = triLen n ∧ ∃ k b : ℝ, 0 < k ∧ r' = r.map (fun a => k * a + b))
+        rows rows' →
+      bootNoiseCeilingG (poolD .corrCov) (simFast n .corrCov) rows o
+        = bootNoiseCeilingG (poolD .corrCov) (simFast n .corrCov) rows' o) := by
+  have hV := symPosDef_getV_none n
+  constructor
+  · intro h
+    have hl := forall₂_left_length h
+    have hl' : ∀ r ∈ rows', r.length = triLen n := by
+      clear hl
+      induction h with
+      | nil => intro r hr; simp at hr
+      | cons hab _ ih =>
+        intro r hr
+        rcases List.mem_cons.mp hr with rfl | hr
+        · obtain ⟨h1, k, _, rfl⟩ := hab; simpa using h1
+        · exact ih r hr
+    rw [ceiling_coded_shortcut_eq_V_form n hn hsol .cosineCov rows o hl,
+      ceiling_coded_shortcut_eq_V_form n hn hsol .cosineCov rows' o hl']
+    exact ceiling_scale_invariant_whitened hV hsol rows rows' o h
+  · intro h
+    have hl := forall₂_left_length h
+    have hl' : ∀ r ∈ rows', r.length = triLen n := by
+      clear hl
+      induction h with
+      | nil => intro r hr; simp at hr
+      | cons hab _ ih =>
+        intro r hr
+        rcases List.mem_cons.mp hr with rfl | hr
+        · obtain ⟨h1, k, b, _, rfl⟩ := hab; simpa using h1
+        · exact ih r hr
+    rw [ceiling_coded_shortcut_eq_V_form n hn hsol .corrCov rows o hl,
+      ceiling_coded_shortcut_eq_V_form n hn hsol .corrCov rows' o hl']
+    exact ceiling_affine_invariant_whitened hV hsol rows rows' o h
+
+/-! ## 11. (round 3) leaves derived from the control flow of the anchored files -/
+
+/-- the `_nonzero` guard of both files, regenerated from `np.where(norm == 0, 1, norm)` (a norm is `≥ 0`):
+    exactly "zero → 1, every positive norm unchanged" — no threshold -/
+theorem guard_leaves (s : ℝ) :
+    nonzero s = (if 0 < s then s else 1) ∧ nonzeroP s = nonzero s ∧
+    Rsa.Gen.C07.nonzeroGuard s = Rsa.Gen.C07.poolingNonzeroGuard s :=
+  ⟨nonzero_def s, nonzeroP_eq s, by
+    have h1 : Rsa.Gen.C07.nonzeroGuard s = nonzero s := rfl
+    have h2 : Rsa.Gen.C07.poolingNonzeroGuard s = nonzeroP s := rfl
+    rw [h1, h2, nonzeroP_eq]⟩
+
+/-- the if/elif dispatch of `pool_rdm` on the method name, regenerated from both files: which
+    normaliser each of the six methods gets (1 `/RMS`, 2 mean removal + `/std`, 3 ranks; in
+    `util/pooling.py` 4 / 5 = the whitened norm for `cosine_cov` / `corr_cov`) and the **min-shift
+    condition** (only the correlation-type pools are shifted) — the model's `normF`, `poolD`, `poolO`,
+    `poolW` call these leaves -/
+theorem dispatch_leaves (m : Method) :
+    Rsa.Gen.C07.normKind m.code = (match m with
+      | .cosine | .cosineCov => 1 | .corr | .corrCov => 2 | .rhoA | .spearman => 3) ∧
+    Rsa.Gen.C07.hasShift m.code = (match m with | .corr | .corrCov => 1 | _ => 0) ∧
+    Rsa.Gen.C07.poolingNormKind m.code = (match m with
+      | .cosine => 1 | .corr => 2 | .rhoA | .spearman => 3 | .cosineCov => 4 | .corrCov => 5) ∧
+    Rsa.Gen.C07.poolingHasShift m.code = Rsa.Gen.C07.hasShift m.code := by
+  cases m <;> decide
+
+/-- `for i in range(len(ceil_set))` visits every fold (both functions), and the defaults are
+    `method='cosine'`, descriptor `'index'`; hence `boot_noise_ceiling` as coded is the generic loop
+    over *all* leave-one-group-out folds the theorems above speak about -/
+theorem loop_leaves (n : ℕ) (m : Method) (o : Obj) (rows : List (List (Option ℝ))) :
+    Rsa.Gen.C07.bootLoopLen n = n ∧ Rsa.Gen.C07.cvLoopLen n = n ∧
+    Rsa.Gen.C07.bootDefaults = 1 ∧ Rsa.Gen.C07.cvDefaults = 1 ∧
+    bootNoiseCeilingO m o rows =
+      (if commonMask rows then
+        some (bootNoiseCeilingG (poolO m) (simO m (vFor m o.nC (maskOf (rows.headD [])))) rows o)
+      else none) := by
+  refine ⟨rfl, rfl, rfl, rfl, ?_⟩
+  have htake : List.take (Rsa.Gen.C07.bootLoopLen (looFolds o).length) (looFolds o) = looFolds o := by
+    unfold Rsa.Gen.C07.bootLoopLen; exact List.take_length
+  unfold bootNoiseCeilingO
+  simp only [htake]
+  rfl
 
 /-! ## non-vacuity -/
 
@@ -638,7 +934,7 @@ example : commonMask ([[some 1, none, some 3], [some 2, some 5, some 4]] : List 
 
 -- the whitened theorems: for three conditions `V = getV 3 none` is symmetric positive definite and
 -- `Compare.solve` (Gauss–Jordan, as executed by the driver) meets the solver contract on it
-example : getV 3 (SigmaK.none : SigmaK ℝ) = [[4, 1, 1], [1, 4, 1], [1, 1, 4]] := by
+theorem getV3_eq : getV 3 (SigmaK.none : SigmaK ℝ) = [[4, 1, 1], [1, 4, 1], [1, 1, 4]] := by
   simp [getV, xi, contrast, pairs, pairsOf, List.range_succ]
   norm_num
 
@@ -659,7 +955,7 @@ example : SymPosDef [[4, 1, 1], [1, 4, 1], [1, 1, 4]] 3 := by
     have : 0 < f i * f i := mul_self_pos.mpr hne
     interval_cases i <;> nlinarith
 
-example : IsSolver [[4, 1, 1], [1, 4, 1], [1, 1, 4]] 3 (solve [[4, 1, 1], [1, 4, 1], [1, 1, 4]]) := by
+theorem isSolver_getV3 : IsSolver [[4, 1, 1], [1, 4, 1], [1, 1, 4]] 3 (solve [[4, 1, 1], [1, 4, 1], [1, 1, 4]]) := by
   intro b hb
   match b, hb with
   | [x, y, z], _ =>
@@ -671,5 +967,39 @@ example : IsSolver [[4, 1, 1], [1, 4, 1], [1, 1, 4]] 3 (solve [[4, 1, 1], [1, 4,
 -- a stack with a constant RDM (degenerate for the correlation measures) and one with a zero RDM
 example : ¬ 0 < dot (center ([4, 4, 4] : List ℝ)) (center [4, 4, 4]) ∧ ¬ 0 < dot ([0, 0, 0] : List ℝ) [0, 0, 0] := by
   constructor <;> norm_num [dot, center, mean]
+
+-- round 3: unequal groups (sizes 2 and 1) and balanced groups (2 + 2)
+def exObjU : Obj := { nR := 3, nC := 3, rdesc := fun j => [5, 5, 9].getD j 0, pdesc := id }
+
+example : exObjU.nR = exRows.length ∧ 1 < nGroups exObjU ∧ groupSize exObjU 0 = 2 ∧
+    groupSize exObjU 2 = 1 := ⟨rfl, by decide, by decide, by decide⟩
+
+def exObjB : Obj := { nR := 4, nC := 3, rdesc := fun j => [5, 9, 9, 5].getD j 0, pdesc := id }
+
+example : exObjB.nR = ([[1, 2, 3], [2, 1, 4], [3, 3, 1], [0, 1, 1]] : List (List ℝ)).length ∧
+    1 < nGroups exObjB ∧ ∀ j, j < exObjB.nR → groupSize exObjB j = 2 := by
+  refine ⟨rfl, by decide, ?_⟩
+  intro j hj
+  have hj' : j < 4 := hj
+  interval_cases j <;> decide
+
+-- round 3: a cross-validation fold on a stack with a commonly missing entry on which the shapes agree
+-- (the `if` of `cv_ignores_common_nan` takes the `some` branch)
+def exCvObj : Obj := { nR := 2, nC := 3, rdesc := id, pdesc := id }
+def exCvFold : CvFold :=
+  { ceil := { rows := [0], conds := [0, 1, 2], pidx := [0, 1, 2] },
+    test := { rows := [1], conds := [0, 1, 2], pidx := [0, 1, 2] } }
+
+example : cvShapesOk (poolDense .cosine) exCvObj
+    (([[1, 3], [2, 4]] : List (List ℝ)).map (expand [true, false, true])) [exCvFold] = true := by
+  simp [cvShapesOk, cvPredTrain, cvPredTest, partData, selectRows, restrict, subsampleAt, maskVec,
+    poolDense, expand, maskOf, exCvObj, exCvFold, pairs, pairsOf, List.range_succ, triLen, present, poolD,
+    meanRows, vsumP, applyD, vadd, normF, Rsa.Gen.C07.normKind, Rsa.Gen.C07.hasShift, Method.code]
+
+-- round 3: the solver contract of the coded-shortcut theorems holds for three conditions
+example : 0 < 3 ∧ IsSolver (getV 3 (SigmaK.none : SigmaK ℝ)) (triLen 3) (solve (getV 3 SigmaK.none)) := by
+  refine ⟨by decide, ?_⟩
+  rw [getV3_eq]
+  exact isSolver_getV3
 
 end Rsa.Props.C07
